@@ -410,6 +410,22 @@ pub fn run(ctx: &Ctx) -> (Spec, Report) {
                 }
                 let single = defs_of(sf);
                 rep.count("single_file_twins_compared", 1);
+                // not only the same names: the same bodies (fields, types referred to, variants), unless two crates define
+                // one name (single-file mode cannot hold both)
+                if union == single && !r.ws.same_named {
+                    let body = |file: &File| -> BTreeMap<String, String> { file.defs.iter().filter(|d| d.kind != DefKind::Helper).map(|d| (d.name.clone(), d.to_json().to_string())).collect() };
+                    let sb = body(sf);
+                    for f in multi_facts.values() {
+                        if let ParseStatus::Parsed(file) = &f.status {
+                            for (name, b) in body(file) {
+                                rep.count("definition_bodies_compared_with_single_file", 1);
+                                if sb.get(&name) != Some(&b) {
+                                    rep.violate(format!("C14|{lname}|definition-body-differs-from-single-file"), format!("{name}: multi-file {b} vs single-file {}", sb.get(&name).cloned().unwrap_or_default()), detail(json!({"definition": name, "single_file_output": r.single})));
+                                }
+                            }
+                        }
+                    }
+                }
                 if union != single {
                     rep.violate(format!("C14|{lname}|definitions-differ-from-single-file"), format!("multi-file defines {:?}, single-file defines {:?}", union.difference(&single).collect::<Vec<_>>(), single.difference(&union).collect::<Vec<_>>()), detail(json!({"single_file_output": r.single})));
                 }
